@@ -8,7 +8,6 @@ import (
 	"google.golang.org/protobuf/types/known/structpb"
 
 	"github.com/openfga/openfga/internal/vt"
-	"github.com/openfga/openfga/internal/vtmodels"
 	"github.com/openfga/openfga/internal/vtsem"
 	"github.com/openfga/openfga/pkg/typesystem"
 )
@@ -31,6 +30,12 @@ import (
 //	             wildcard of its type is returned (the response has no excluded_users, so a wildcard stands
 //	             for "ask Check"); a permitted wildcard is returned as a wildcard
 //	errors       only if the store holds a tuple whose condition cannot be evaluated under the request context
+//	             (ListUsers evaluates the condition of every tuple it reads, also of tuples whose user is of
+//	             another type than the filter, so the finer policy of the Check harness - "only if the answer
+//	             depends on that condition" - does not apply to it)
+//
+// The deadline is switched off (a deadline yields a partial answer by design). The response of this API
+// version has no excluded_users field.
 
 type verifE06Req struct {
 	obj, rel string
@@ -109,13 +114,28 @@ func verifE06Split(obj string) (string, string) {
 // "req" parameter) and EVERY store content over the candidate universe, the answer of ListUsers is sound,
 // duplicate free and complete with respect to the reference semantics of Check.
 func VerifE06ListUsers() {
-	m := vtmodels.Model(vt.Param("model", "direct"))
+	m := verifE06Model(vt.Param("model", "direct"))
 	ts, err := typesystem.New(m)
 	vt.Assert(err == nil && ts != nil, "typesystem.New failed on a validated model")
+	if !vt.Symbolic() {
+		// native replay: the model (the hand-written lu_* ones in particular) passes the real model validation
+		_, verr := typesystem.NewAndValidate(context.Background(), m)
+		vt.Assert(verr == nil, "harness: the model is rejected by the model validation")
+	}
 	u := vtsem.NewUniverse(m, vt.ParamInt("nobj", 2), vt.ParamInt("invalid", 1) == 1)
 	u.Restrict(vt.ParamInt("maxcands", 12), vt.ParamInt("seed", 0))
 	st := vtsem.NewSymbolicStore(u)
 	reqs := verifE06Requests(u, vt.Param("filters", "all"))
+	if parts := vt.ParamInt("parts", 1); parts > 1 {
+		// split the request family over several jobs: this job takes the requests k with k % parts == part
+		var mine []verifE06Req
+		for k, r := range reqs {
+			if k%parts == vt.ParamInt("part", 0) {
+				mine = append(mine, r)
+			}
+		}
+		reqs = mine
+	}
 	ri := vt.ParamInt("req", -1)
 	if ri < 0 {
 		ri = vt.Choose("req", len(reqs))
@@ -139,7 +159,13 @@ func VerifE06ListUsers() {
 	if b := vt.ParamInt("breadth", 0); b > 0 {
 		opts = append(opts, WithResolveNodeBreadthLimit(uint32(b)))
 	}
-	q := NewListUsersQuery(&vtsem.Reader{S: st}, nil, opts...)
+	// "ctx" = k: the first k valid candidates travel as contextual tuples of the request instead of being
+	// stored (the reference counts them like stored tuples)
+	var ctxTuples []*openfgav1.TupleKey
+	if k := vt.ParamInt("ctx", 0); k > 0 {
+		ctxTuples = st.SplitContextual(k)
+	}
+	q := NewListUsersQuery(&vtsem.Reader{S: st}, ctxTuples, opts...)
 	st.StubConditions()
 	var reqCtx *structpb.Struct
 	if !vt.Symbolic() {
@@ -153,6 +179,7 @@ func VerifE06ListUsers() {
 		Relation:             rq.rel,
 		UserFilters:          []*openfgav1.UserTypeFilter{{Type: rq.ftype, Relation: rq.frel}},
 		Context:              reqCtx,
+		ContextualTuples:     ctxTuples,
 	}
 	verr := ValidateListUsersRequest(ctx, req, ts)
 	vt.Assert(verr == nil, "listusers: a request over the model's own types and relations was refused by validation")
@@ -160,14 +187,8 @@ func VerifE06ListUsers() {
 	vt.Reach("listed")
 
 	if lerr != nil {
-		unevaluable := false
-		for i, c := range u.Cands {
-			if c.Cond != "" && st.Q[i] && st.Err[i] {
-				unevaluable = true
-			}
-		}
 		vt.Reach("error")
-		vt.Assert(unevaluable, "listusers: error although every condition in the store can be evaluated")
+		vt.Assert(st.AnyPresentConditionError(), "listusers: error although every condition in the store can be evaluated")
 		return
 	}
 	vt.Assert(resp != nil, "listusers: neither a response nor an error")
@@ -197,12 +218,16 @@ func VerifE06ListUsers() {
 
 	var got []string
 	for _, x := range resp.GetUsers() {
-		if x.GetObject() != nil && rq.frel != "" && x.GetObject().GetType() == rq.ftype && vt.ParamInt("known_objects_under_userset_filter", 0) == 1 {
-			// Known finding (reported by the strict jobs, which run without this parameter): under a filter
-			// type#relation expandDirect also returns plain objects of that type. Jobs that set the parameter
-			// drop exactly those entries so that every other obligation is still explored on all paths (the
-			// engine stops a run after five violations).
-			vt.Reach("known-finding-entry-dropped")
+		if x.GetObject() != nil && rq.frel != "" && x.GetObject().GetType() == rq.ftype {
+			// Finding: under a filter type#relation expandDirect also returns plain objects of that type.
+			// The strict jobs (parameter unset) report it. Jobs that set the parameter drop exactly those
+			// entries so that every other obligation is still explored on all paths (the engine stops a run
+			// after five violations).
+			if vt.ParamInt("known_objects_under_userset_filter", 0) == 1 {
+				vt.Reach("known-finding-entry-dropped")
+			} else {
+				vt.Assert(false, "listusers: a plain object of the filter type is returned under a type#relation user filter")
+			}
 			continue
 		}
 		got = append(got, verifE06UserString(x))
